@@ -206,6 +206,31 @@ def run(phase, cases, ctx):
                         break
                 else:
                     counters['hitcount_checks'] += 1
+            # the same number of samples with a DIFFERENT pointing, built after the first sampling was dropped: nothing may be
+            # remembered from the earlier objects (three rounds so that CPython re-uses the freed addresses)
+            import gc
+
+            for rnd in range(3):
+                proj = samplings = H = out = None
+                gc.collect()
+                k = (rnd + 1) * max(1, ns // 4)
+                order = np.roll(np.arange(ns), k)[::-1]
+                if ns < 2 or np.array_equal(order, np.arange(ns)):
+                    break
+                samplings = Sampling(jnp.asarray(th[order], D), jnp.asarray(ph[order], D), jnp.asarray(ps[order], D))
+                proj = create_projection_operator(land, samplings, dets)
+                out = proj.mv(sky)
+                pix2 = pixr[..., order]
+                c2b, s2b = np.cos(2 * ps[order]), np.sin(2 * ps[order])
+                exp2 = {c: comps[c][pix2] for c in kind}
+                if 'Q' in kind:
+                    q, u = exp2['Q'], exp2['U']
+                    exp2['Q'], exp2['U'] = q * c2b - u * s2b, q * s2b + u * c2b
+                bad2 = [c for c in kind if not P.close(np.asarray(getattr(out, c.lower()), float), exp2[c], tol)]
+                if bad2:
+                    violations.append({'kind': 'projection-depends-on-earlier-objects', 'case': case,
+                                       'detail': f'round {rnd}: a projection built from a re-ordered sampling of the same length (after the first one was dropped) is wrong for components {bad2}'})
+                    break
             nontrivial.add(json.dumps(case))
         except P.LibError as e:
             violations.append({'kind': 'library-raises', 'case': case, 'detail': f'{e}\n{e.tb}'})
